@@ -371,6 +371,38 @@ func fromEndField
   atreturn last-counts-from-the-tail-clamped-to-the-range: len(args) > 0 && len(rows) > 0 && !fromHead ==> n == ite($nth < 1, 1, $nth) && f == $col && seqeq(rows, $range) && result == rows[ite(len(rows) - n < 0, 0, len(rows) - n)][f]
   atreturn an-empty-range-null: len(args) > 0 && len(rows) == 0 ==> result == nil
 
+// a placeholder of a prepared DEFINE / MEASURES expression: a navigation or aggregate call is answered by evalNav with the
+// call's own name, arguments and FINAL flag on this context; a qualified column by the symbol resolver
+func evalDesc
+  props C15
+  option assumed_frame
+  requires ctx != nil && len(ctx.labels) == len(ctx.rows)
+  observe nav := evalNav
+  observe sym := resolveSymbolField
+  before evalNav a-call-is-answered-under-its-own-name-with-its-own-arguments-and-range: $arg0 == d.name && $arg1 == d.args && $arg2 == ctx && $arg3 == d.final
+  before resolveSymbolField a-qualified-column-is-resolved-for-its-own-symbol-and-column: $arg0 == ctx && $arg1 == d.name && $arg2 == d.field
+  atreturn the-readers-answer-is-the-placeholders-value: (d.kind == phNav ==> result == $nav) && (d.kind == phSym ==> result == $sym) && (d.kind != phNav && d.kind != phSym ==> result == nil)
+
+// a prepared expression is evaluated on a map built for this call: every placeholder bound to its own value on this
+// context, every bare column of the current row that no placeholder shadows; an empty expression is NULL; the compiled
+// expression's answer is the answer
+func evalPrepared
+  props C15
+  option assumed_frame
+  modifies allmaps
+  requires ctx != nil && len(ctx.labels) == len(ctx.rows)
+  observe v := EvaluateValueWithNull
+  observe isNull := EvaluateValueWithNull#1
+  observe err := EvaluateValueWithNull#2
+  count asked := EvaluateValueWithNull
+  before evalDesc each-placeholder-is-evaluated-on-this-context: $arg1 == ctx && $arg0 == d
+  before EvaluateValueWithNull the-compiled-expression-sees-the-map-built-for-this-call: $arg1 == base
+  atreturn an-empty-expression-is-null: old(p == nil || p.compiled == nil) ==> result0 == nil && result1 && result2 == nil && $asked == 0
+  atreturn the-compiled-expressions-answer-is-the-answer: old(p != nil && p.compiled != nil) ==> $asked == 1 && result0 == $v && result1 == $isNull && result2 == $err
+  loop 1 invariant ctx != nil && len(ctx.labels) == len(ctx.rows) && $asked == 0
+  loop 2 invariant ctx != nil && len(ctx.labels) == len(ctx.rows) && $asked == 0
+  loop 3 invariant ctx != nil && len(ctx.labels) == len(ctx.rows) && $asked == 0
+
 pred candCarries(ctx, symbol) := ctx.candidate != nil && labelMatches(ctx.candLabel, symbol, ctx.subsets)
 
 // A.price in a DEFINE / MEASURES expression: the candidate row answers when it carries the symbol, otherwise the LATEST
